@@ -193,13 +193,15 @@ pub struct OpGen {
     pub nkeys: u32,
     pub nt: usize,
     pub step: std::cell::Cell<usize>,
+    /// order-insensitive API use only (cross-build comparison, C18): no partially consumed extract_if
+    pub det: bool,
 }
 
 impl OpGen {
     pub fn new(mix: &str, nkeys: u32, nt: usize) -> OpGen {
         let table = mix_table(mix);
         let total = table.iter().map(|x| x.1).sum();
-        OpGen { table, total, nkeys, nt, step: std::cell::Cell::new(0) }
+        OpGen { table, total, nkeys, nt, step: std::cell::Cell::new(0), det: false }
     }
     /// Weighted choice; the weights of inserting and removing operations oscillate in phases (fill, drain,
     /// churn) so that walks reach full load, tombstone saturation and near-empty tables.
@@ -268,7 +270,7 @@ impl OpGen {
                         ev.ks.push(c as i64);
                     }
                 }
-                ev.j = if rng.random_range(0..3) == 0 { -1 } else { rng.random_range(0..6) };
+                ev.j = if self.det || rng.random_range(0..3) == 0 { -1 } else { rng.random_range(0..6) };
             }
             "drain" => {
                 ev.j = if rng.random_range(0..2) == 0 { -1 } else { rng.random_range(0..6) };
@@ -331,7 +333,7 @@ impl OpGen {
             }
             "t_insert_unique" | "t_find" | "t_find_mut" | "t_entry_or_insert" | "t_entry_insert" | "t_entry_and_modify"
             | "t_entry_drop" | "t_remove" | "t_remove_reinsert" | "t_occ_get_mut" => {
-                ev.n = if rng.random_range(0..6) == 0 { 1 } else { 0 };
+                ev.n = if !self.det && rng.random_range(0..6) == 0 { 1 } else { 0 };
             }
             "t_iter_hash" => {
                 ev.n = if rng.random_range(0..6) == 0 { 1 } else { 0 };
@@ -343,7 +345,7 @@ impl OpGen {
                         ev.ks.push(c as i64);
                     }
                 }
-                ev.j = if rng.random_range(0..3) == 0 { -1 } else { rng.random_range(0..6) };
+                ev.j = if self.det || rng.random_range(0..3) == 0 { -1 } else { rng.random_range(0..6) };
             }
             "t_get_many_mut" => {
                 let n = rng.random_range(0..5);
@@ -351,7 +353,7 @@ impl OpGen {
                     ev.ks.push(rng.random_range(0..self.nkeys) as i64);
                 }
                 ev.v = rng.random_range(10..20);
-                ev.j = if rng.random_range(0..4) == 0 { 1 } else { 0 };
+                ev.j = if !self.det && rng.random_range(0..4) == 0 { 1 } else { 0 };
             }
             "get_or_insert_with" => {
                 ev.n = if rng.random_range(0..5) == 0 { rng.random_range(0..self.nkeys) as i64 } else { ev.k };
@@ -428,7 +430,8 @@ where
         drv.exec(ev, tr);
     }
     let fault_pct = sc.opt_u("fault", 0) as u32;
-    let gen = OpGen::new(&sc.mix, sc.nkeys, nt);
+    let mut gen = OpGen::new(&sc.mix, sc.nkeys, nt);
+    gen.det = sc.opt_u("det", 0) > 0;
     for _ in 0..sc.ops {
         let ev = {
             let tabs = &drv.tabs;
@@ -518,7 +521,8 @@ where
         ev.n = if t == 2 { 1 } else { 0 };
         drv.exec(ev, tr);
     }
-    let gen = OpGen::new(&sc.mix, sc.nkeys, 2);
+    let mut gen = OpGen::new(&sc.mix, sc.nkeys, 2);
+    gen.det = sc.opt_u("det", 0) > 0;
     let fault_pct = sc.opt_u("fault", 0) as u32;
     for _ in 0..sc.ops {
         let mut ev = gen.gen(&mut rng, &|_t, _c| false);
@@ -546,7 +550,9 @@ fn run_table<E: ElemT>(sc: &Scen, seed: u64, tr: &mut Tracer) -> i32 {
     for t in 1..=nt {
         drv.exec(Event::new("new", t), tr);
     }
-    let gen = OpGen::new(&sc.mix, sc.nkeys, nt);
+    let mut gen = OpGen::new(&sc.mix, sc.nkeys, nt);
+    gen.det = sc.opt_u("det", 0) > 0;
+    drv.nodup = gen.det;
     let fault_pct = sc.opt_u("fault", 0) as u32;
     for _ in 0..sc.ops {
         let mut ev = gen.gen(&mut rng, &|_t, _c| false);
